@@ -249,7 +249,9 @@ class ServerDriver:
             elif k == 'msg_sd':
                 s = self.sockets.get(o[1])
                 if s is not None and not s.closed:
-                    self.sd = True
+                    # as in Server/ServerX.v: while a binary packet is being reassembled for this
+                    # transport the frame is an attachment and is handled as a plain message
+                    self.sd = o[1] not in sio._binary_packet
                     try:
                         await aw(s.receive(self.eio_packet.Packet(self.eio_packet.MESSAGE, o[2])))
                     finally:
